@@ -345,6 +345,7 @@ func c03r1(c *core.Ctx) {
 }
 
 func c03r2(c *core.Ctx) {
+	wrapperErrors(c, "VerifyServerController", tVerifyCtrl)
 	p := c.P
 	m := buildStepModel(p, "hap/pair", "VerifyServerController", tVerifyCtrl)
 	if m == nil {
